@@ -4,9 +4,13 @@ Require Import Base Token Tree Writer Compile Parser Grammar PrintSpec PrintProo
 Require Import Gen.Tables Gen.Printer.
 
 (* the printer-side precedence of every node kind is its ECMAScript level: the two
-   tables (ast/ast.go and Grammar.v, hence parser/parser.go by C02) agree *)
-Theorem C03_precedences_agree : forall e, e <> ENil -> prec_opt e = Some (level e) \/
-  (exists t l op r, e = EBinary t l op r /\ binop_level (t_type t) = None).
+   tables (ast/ast.go and Grammar.v, hence parser/parser.go by C02) agree.  The one
+   numerical difference: ast.go ranks member access (12) above calls (11) where ECMAScript
+   has the single LeftHandSide level; no printer test separates the two. *)
+Theorem C03_precedences_agree : forall e, e <> ENil ->
+  prec_opt e = Some (level e)
+  \/ (exists t o p c, e = EMember t o p c /\ prec_opt e = Some A_PrecedenceMember /\ level e = L_LHS)
+  \/ (exists t l op r, e = EBinary t l op r /\ binop_level (t_type t) = None).
 Proof. exact printer_levels_agree. Qed.
 Print Assumptions C03_precedences_agree.
 
